@@ -37,7 +37,7 @@ def chk(pid, text, note, technique, ref):
 
 m = {
  "version": 1,
- "setup_cmd": "/venv/bin/python -c \"import regex, pefile, sys; sys.path.insert(0, '/repo/src'); import multidecoder.multidecoder, multidecoder.registry; print('setup ok')\"",
+ "setup_cmd": "mkdir -p .build && (clang -shared -fPIC -O2 -o .build/libsimclock.so sim/simclock.c || gcc -shared -fPIC -O2 -o .build/libsimclock.so sim/simclock.c || echo 'no C compiler: clock() shim skipped') && /venv/bin/python -c \"import regex, pefile, sys; sys.path.insert(0, '/repo/src'); import multidecoder.multidecoder, multidecoder.registry; print('setup ok')\"",
  "hooks": {
   "guard": "MULTIDECODER_VERIF",
   "enable": "no hooks: every seam (os.scandir/listdir, builtins.open, sys.std*, sys.argv, sys.settrace, PYTHONHASHSEED, threads) already exists at a module boundary; checks import /repo/src from the working tree",
